@@ -23,10 +23,11 @@ import (
 //	pool <npeers> <perPeerLimit> <W>
 //	gate <p> ok|stall|fail        sends to p complete at once / stay on the wire / fail (also the one on the wire)
 //	new <p> <k> <id> <pri> <hook> <n> <miss> <bhplan>      (as in `resplife`; no parking plans)
-//	waitsend <p> <ms>             barrier: until a send to p is on the wire (deadline, no polling)
-//	waitalloc <n> <ms>            barrier: until n reservations wait for memory
+//	waitsend <p> <ms>             barrier: until a send to p is on the wire (coverage only, bounded by ms)
+//	waitalloc <n> <ms>            barrier: until n reservations wait for memory (coverage only, bounded by ms)
 //	disc <p>                      PeerManager.Disconnected(p): the peer's message queue shuts down
-//	settle <ms>                   barrier: until everything is retired (deadline)
+//	settle <ms>                   barrier: until everything is retired, or the process is provably idle
+//	                              (all goroutines parked for 1.5 s = 15x the code's 100 ms retry wait); ms ignored
 //	mark                          requests sent so far must all be retired at the next settle
 //	end
 //
@@ -114,8 +115,59 @@ type disconRun struct {
 	hung  bool // a synchronous call into the response manager did not return
 }
 
-// every call that waits for the response-manager loop is guarded: a blocked loop must not hang the harness
-const disconWatchdog = 3 * time.Second
+// No verdict of this component depends on how fast the machine is.  A barrier ends when its condition
+// holds (re-evaluated on notifications from the real code), or when the process is PROVABLY idle:
+// every goroutine other than the harness' own is parked (channel receive, select, cond wait, ...) at
+// every sample during idleFor, which is 15x the only timer of the code under test that matters here
+// (messagequeue waits 100 ms after a failed send).  A runnable or running goroutine, on however slow a
+// machine, keeps the barrier waiting.  The watchdog is a safety net and only ever declares `hang`.
+const (
+	disconWatchdog = 120 * time.Second
+	idleFor        = 1500 * time.Millisecond
+	idleSample     = 50 * time.Millisecond
+)
+
+// waiting for a mutex or on a channel send counts as parked here: with every other goroutine parked
+// too, for 1.5 s, nobody is left to release the lock / receive - that is the deadlock to be reported
+var idleBusy = []string{"running", "runnable", "syscall", "copystack", "preempted"}
+
+// othersParked: every goroutine except the caller and the harness' own samplers is in a waiting state
+func othersParked() bool {
+	buf := make([]byte, 1<<20)
+	n := runtime.Stack(buf, true)
+	first := true
+	for _, g := range strings.Split(string(buf[:n]), "\n\n") {
+		if !strings.HasPrefix(g, "goroutine ") {
+			continue
+		}
+		if first {
+			first = false
+			continue
+		}
+		if strings.Contains(g, "resplife.(*disconRun).") {
+			continue // the harness' own guarded call
+		}
+		hdr := g
+		if i := strings.IndexByte(g, '\n'); i >= 0 {
+			hdr = g[:i]
+		}
+		a, b := strings.IndexByte(hdr, '['), strings.LastIndexByte(hdr, ']')
+		if a < 0 || b < a {
+			return false
+		}
+		st := hdr[a+1 : b]
+		// a goroutine of the code under test sleeping on a timer is not idle for good
+		if strings.HasPrefix(st, "sleep") {
+			return false
+		}
+		for _, p := range idleBusy {
+			if strings.HasPrefix(st, p) {
+				return false
+			}
+		}
+	}
+	return true
+}
 
 func (d *disconRun) guarded(f func()) bool {
 	if d.hung {
@@ -123,15 +175,29 @@ func (d *disconRun) guarded(f func()) bool {
 	}
 	done := make(chan struct{})
 	go func() { f(); close(done) }()
-	t := time.NewTimer(disconWatchdog)
-	defer t.Stop()
-	select {
-	case <-done:
-		return true
-	case <-t.C:
+	wd := time.NewTimer(disconWatchdog)
+	defer wd.Stop()
+	tick := time.NewTicker(idleSample)
+	defer tick.Stop()
+	idle := 0
+	for {
+		select {
+		case <-done:
+			return true
+		case <-tick.C:
+			if othersParked() {
+				idle++
+			} else {
+				idle = 0
+			}
+			if time.Duration(idle)*idleSample < idleFor {
+				continue
+			}
+		case <-wd.C:
+		}
 		d.hung = true
 		detail := dumpGoroutines("AllocateAndBuildMessage", "responseassembler", "messagequeue.(*MessageQueue)", "responsemanager.(*ResponseManager).run")
-		d.out.Fail("hang", "a call into the response manager did not return within %v: its loop is blocked; goroutines: %s", disconWatchdog, detail)
+		d.out.Fail("hang", "a call into the response manager does not return and every goroutine of the process is parked: its loop is blocked for good; goroutines: %s", detail)
 		if d.fault {
 			d.out.Fail("stalled-peer-not-recovered", "after the send to the stalled peer failed / the peer disconnected the response manager loop is blocked; goroutines: %s", detail)
 		}
@@ -174,18 +240,42 @@ func dumpGoroutines(filter ...string) string {
 	return strings.Join(hits, " | ")
 }
 
-// waitUntil re-evaluates cond whenever the real code reports progress, until it holds or the deadline passes
-func (d *disconRun) waitUntil(ms int, cond func() bool) bool {
-	deadline := time.NewTimer(time.Duration(ms) * time.Millisecond)
-	defer deadline.Stop()
+// waitUntil re-evaluates cond whenever the real code reports progress.  It gives up when the process
+// is provably idle (see idleFor) - then the condition can never become true - or, as a safety net,
+// when the watchdog expires (second result true: report a hang, nothing else).  maxMs > 0 bounds
+// barriers that are only there for coverage (waitsend / waitalloc) and produce no verdict.
+func (d *disconRun) waitUntil(maxMs int, cond func() bool) (ok bool, watchdogExpired bool) {
+	wd := time.NewTimer(disconWatchdog)
+	defer wd.Stop()
+	var bound <-chan time.Time
+	if maxMs > 0 {
+		t := time.NewTimer(time.Duration(maxMs) * time.Millisecond)
+		defer t.Stop()
+		bound = t.C
+	}
+	tick := time.NewTicker(idleSample)
+	defer tick.Stop()
+	idle := 0
 	for {
 		if cond() {
-			return true
+			return true, false
 		}
 		select {
 		case <-d.e.evCh:
-		case <-deadline.C:
-			return cond()
+			idle = 0
+		case <-bound:
+			return cond(), false
+		case <-tick.C:
+			if othersParked() {
+				idle++
+			} else {
+				idle = 0
+			}
+			if time.Duration(idle)*idleSample >= idleFor {
+				return cond(), false
+			}
+		case <-wd.C:
+			return cond(), true
 		}
 	}
 }
@@ -328,13 +418,13 @@ func (d *disconRun) exec(op []string) string {
 		if p < 0 || p >= e.npeers {
 			return "bad"
 		}
-		if d.waitUntil(atoi(arg(2)), func() bool { return e.blockedSends(p) > 0 }) {
+		if ok, _ := d.waitUntil(atoi(arg(2)), func() bool { return e.blockedSends(p) > 0 }); ok {
 			d.out.Cov("waitsend.on-the-wire")
 		}
 		return "ok"
 	case "waitalloc":
 		n := int32(atoi(arg(1)))
-		if d.waitUntil(atoi(arg(2)), func() bool { return atomic.LoadInt32(&e.allocWaiting) >= n }) {
+		if ok, _ := d.waitUntil(atoi(arg(2)), func() bool { return atomic.LoadInt32(&e.allocWaiting) >= n }); ok {
 			d.out.Cov("waitalloc.executor-waits-for-memory")
 		}
 		return "ok"
@@ -362,8 +452,14 @@ func (d *disconRun) exec(op []string) string {
 			}
 		}
 		var s disconState
-		ok := d.waitUntil(atoi(arg(1)), func() bool { s = d.state(); return s.quiet() || d.hung })
+		// the argument (ms) of `settle` is ignored: see waitUntil
+		ok, expired := d.waitUntil(0, func() bool { s = d.state(); return s.quiet() || d.hung })
 		if d.hung {
+			return "hung"
+		}
+		if expired && !s.quiet() {
+			d.hung = true
+			d.out.Fail("hang", "not settled after %v although goroutines are still busy: %s", disconWatchdog, dumpGoroutines("AllocateAndBuildMessage", "responseassembler", "messagequeue.(*MessageQueue)", "responsemanager.(*ResponseManager).run"))
 			return "hung"
 		}
 		if ok {
@@ -387,7 +483,9 @@ func (d *disconRun) exec(op []string) string {
 				stuckPeers[pp] = true
 			}
 		}
-		lateOnly := len(stuckPeers) > 0
+		// the finding's failure mode: the message is gone and NOTHING is left working or waiting for
+		// that response (no task active or pending, no reservation waiting, memory returned)
+		lateOnly := len(stuckPeers) > 0 && s.active == 0 && s.pending == 0 && s.waiting == 0 && s.alloc == 0
 		for pp := range stuckPeers {
 			if e.lateBuilds(pp) == 0 && s.refused[pp] == 0 {
 				lateOnly = false
